@@ -24,9 +24,18 @@ def make_run_case(rng):
         # graphs with self-loops and parallel edges (what grid_to_graph makes of periodic axes of length 1 and 2); the time step is
         # tuned to the hops they add (an edge added to a graph without edges brings rates the first tuning never saw: Poisson means
         # beyond `int`, finding F20, and far beyond what F20's discriminator divides away)
+        # networks of many reactions (tables and scratch buffers sized from the number of reactions): 9 to 40 of them now and then
+        many = rng.random() < 0.12
+        if many:
+            labels = [s_["label"] for s_ in c["desc"]["species"]]
+            while len(c["desc"]["reactions"]) < rng.choice([9, 12, 17, 24, 40]):
+                r_ = sysgen.rand_reaction(rng, labels, c["desc"]["envs"])
+                for key in ("kf", "kr"):
+                    r_[key] = {"scalar": {"v": rng.choice([0.0, 0.25, 1.0]), "sys": ["µm", "s", "molecule"]}}
+                c["desc"]["reactions"].append(r_)
         ne = len(c["desc"]["space"].get("edges", []))
         trajgen.add_multi_edges(rng, c["desc"])
-        if len(c["desc"]["space"].get("edges", [])) == ne or abs(trajgen.tune_time_step(c)) <= 40:
+        if (len(c["desc"]["space"].get("edges", [])) == ne and not many) or abs(trajgen.tune_time_step(c)) <= 40:
             break
     # empty tails of the request list, requests all at 0, a single request
     r = rng.random()
